@@ -37,6 +37,8 @@ def texpr(t, f=None):
         raise ValueError(t)
     if f is not None and 'sub' in f:
         out['sub_name'] = f['sub']
+    if f is not None and f.get('exc'):
+        out['exc'] = True
     if f is not None and k != 'attr':
         if f['min'] != 0:
             out['min'] = f['min']
